@@ -4,6 +4,7 @@ go 1.25.0
 
 require (
 	github.com/mr-tron/base58 v1.2.0
+	github.com/anishathalye/porcupine v1.3.0
 	github.com/nspcc-dev/neo-go v0.121.0
 	go.uber.org/zap v1.27.1
 	golang.org/x/tools v0.44.0
